@@ -881,7 +881,7 @@ def with_custom_operations(case: Dict[str, Any], i: int) -> None:
         case["cfg"].update([{"include_all_inputs": False, "include_all_enums": False}, {"include_all_enums": False}, {"include_all_inputs": False}][(i // 7) % 3])
     if i % 9 == 4:
         case["cfg"] = dict(case["cfg"])
-        case["cfg"]["include_comments"] = "stable"
+        case["cfg"]["include_comments"] = "stable" if (i // 9) % 2 == 0 else "timestamp"
     if i % 23 == 7:
         case["collide"] = "included-exceptions"
     elif i % 23 == 16:
